@@ -11,6 +11,13 @@ def build(P):
     P.verify("asl_workflow_engine/state_engine.py::parse_rfc3339_datetime", T.parser_contract(),
              tags=("C08",), timeout=30)
     T.add_lemmas(P)
+    # the engine-internal States.ExecutionTimeout is reported to the outside as States.Timeout
+    from contracts import records as R, engine as E, errors as ER
+    R.abstract_arn(P.reg)
+    ER.callees(P.reg)
+    R.callees(P.reg)
+    P.reg.externals.insert(0, P.reg.externals.pop())      # records' view of handle_sfn_response first
+    P.verify(E.SE + "StateEngine.end_execution", R.end_execution_contract(), tags=("C08",))
     P.native("rfc3339-all-offsets", "natives.c08:all_offsets", kind="bounded", clause="true-instant",
              bound="every numeric offset -23:59..+23:59 (2 x 24 x 60, exhaustive) x 3 date-time fields (6 at thorough), plus Z")
     P.explanation = ("Deadline arithmetic of Wait and Task proved per handler (never early w.r.t. the last clock read, never "
